@@ -594,6 +594,7 @@ func (m *MW) StepCheckstate() {
 	mint := m.pickMint()
 	n := 1 + m.T.Choose("cs.n", 6)
 	var Ys []string
+	usedPending := false
 	for i := 0; i < n; i++ {
 		switch m.T.Choose("cs.kind", 5) {
 		case 0:
@@ -617,9 +618,12 @@ func (m *MW) StepCheckstate() {
 				Ys = append(Ys, hY(randHex(16)))
 			}
 		case 4:
-			if len(m.Pending) > 0 {
+			// proofs of at most one pending melt per request: gonuts resolves the pending quotes of a
+			// checkstate request in Go map order (one Lightning lookup each), which would not replay
+			if len(m.Pending) > 0 && !usedPending {
 				pm := m.Pending[m.T.Choose("cs.pm", len(m.Pending))]
 				if pm.Mint == mint {
+					usedPending = true
 					Ys = append(Ys, pm.Ins[0].Y())
 					continue
 				}
